@@ -167,6 +167,20 @@ fn emit_case(out: &mut Out, rng: &mut Rng, models: &[TableDef], history: &[Migra
                 Err(e) => format!("(Err {})", VErr(&e).gs()),
             });
         }
+        // the filled plan with every fill value replaced by something that is no enum label (Corr.v corrupt_fill)
+        {
+            let mut bad = filled_plan.clone();
+            for a in bad.actions.iter_mut() {
+                match a {
+                    MigrationAction::AddColumn { fill_with, .. } | MigrationAction::ModifyColumnNullable { fill_with, .. } => *fill_with = Some("'zzz_not_a_label'".to_string()),
+                    _ => {}
+                }
+            }
+            validate.push(match validate_migration_plan(&MigrationPlan { version: 0, ..bad }) {
+                Ok(()) => "(Ok tt)".to_string(),
+                Err(e) => format!("(Err {})", VErr(&e).gs()),
+            });
+        }
         // with_prefix of the planned actions and of the actions as `revision` writes them (fill values included)
         let mut prefixed_actions = np.clone().with_prefix("app_").actions;
         prefixed_actions.extend(filled_plan.clone().with_prefix("app_").actions);
@@ -518,6 +532,12 @@ fn objects_of(models: &[TableDef]) -> Vec<Obj> {
 }
 
 fn ident(rng: &mut Rng) -> String {
+    if rng.chance(1, 6) {
+        // long identifiers: derived names of 60..150 bytes (no engine limit is applied by the naming functions)
+        let words = ["customer", "subscription", "billing", "history", "organization", "account", "identifier", "created_at", "updated_at"];
+        let n = rng.range(3, 5);
+        return (0..n).map(|_| *rng.pick(&words[..])).collect::<Vec<_>>().join("_");
+    }
     let alphabet = ["a", "b", "_", "c", "__", "ab", "x_y"];
     let n = rng.range(1, 3);
     let mut s = String::new();
